@@ -43,36 +43,39 @@ impl It<T> {
             r matches Some(v) ==> (nvalid(self.seq()) == 1 ==> rv(v) == kth(self.seq(), 0)),
     { unimplemented!() }
 }
-// the three parts `slice::select_nth_unstable_by(j, cmp)` returns, as read-only values (A-SORT):
-// with the ascending null-last comparator, m is the j-th smallest element and `head` holds the j smaller ones
-pub struct Head { pub x: Ghost<Seq<T>>, pub j: Ghost<int>, pub asc: Ghost<bool> }
-impl Head {
+// the parts `slice::select_nth_unstable_by(j, cmp)` returns (A-SORT).  `head` is an ordinary (unordered!) sequence of which
+// only one thing is known: it holds the j elements that sort before the pivot.  is_head(h, x, j, asc) records exactly that.
+pub uninterp spec fn is_head(h: Seq<T>, x: Seq<T>, j: int, asc: bool) -> bool;
+pub trait SliceTiter { fn titer(&self) -> (r: HeadIt); }
+impl SliceTiter for Vec<T> {
     #[verifier::external_body]
-    pub fn titer(&self) -> (r: HeadIt) ensures r.h == *self { unimplemented!() }
+    fn titer(&self) -> (r: HeadIt) ensures r.s@ == self@ { unimplemented!() }
 }
-pub struct HeadIt { pub h: Head }
+pub struct HeadIt { pub s: Ghost<Seq<T>> }
 impl HeadIt {
-    // vmax of the j smallest = the (j-1)-th smallest ; vmin of the j largest = the (j-1)-th largest
+    // C11 extrema of the non-null items + the order-statistic fact of A-SORT:
+    // the greatest of the j smallest is the (j-1)-th smallest; the least of the j largest is the (j-1)-th largest
     #[verifier::external_body]
     pub fn vmax(self) -> (r: Option<f64>)
-        ensures (self.h.asc@ && 1 <= self.h.j@ <= nvalid(self.h.x@)) ==> r.is_some() && !nan(r.unwrap()) && rv(r.unwrap()) == kth(self.h.x@, self.h.j@ - 1),
+        ensures forall|x: Seq<T>, j: int| #![trigger is_head(self.s@, x, j, true)] (is_head(self.s@, x, j, true) && 1 <= j <= nvalid(x))
+            ==> r.is_some() && !nan(r.unwrap()) && rv(r.unwrap()) == kth(x, j - 1),
     { unimplemented!() }
     #[verifier::external_body]
     pub fn vmin(self) -> (r: Option<f64>)
-        ensures (!self.h.asc@ && 1 <= self.h.j@ <= nvalid(self.h.x@)) ==> r.is_some() && !nan(r.unwrap())
-            && rv(r.unwrap()) == kth(self.h.x@, nvalid(self.h.x@) - self.h.j@),
+        ensures forall|x: Seq<T>, j: int| #![trigger is_head(self.s@, x, j, false)] (is_head(self.s@, x, j, false) && 1 <= j <= nvalid(x))
+            ==> r.is_some() && !nan(r.unwrap()) && rv(r.unwrap()) == kth(x, nvalid(x) - j),
     { unimplemented!() }
 }
 #[verifier::external_body]
-pub fn select_nth_asc(slc: &mut [T], j: usize) -> (r: (Head, T, Head))
+pub fn select_nth_asc(slc: &mut [T], j: usize) -> (r: (Vec<T>, T, Vec<T>))
     requires j < old(slc)@.len(),           // #C10 select_nth_index_in_range
-    ensures r.0.x@ == old(slc)@, r.0.j@ == j, r.0.asc@,
+    ensures r.0@.len() == j, is_head(r.0@, old(slc)@, j as int, true),
         j < nvalid(old(slc)@) ==> !nan(r.1) && rv(r.1) == kth(old(slc)@, j as int),
 { unimplemented!() }
 #[verifier::external_body]
-pub fn select_nth_desc(slc: &mut [T], j: usize) -> (r: (Head, T, Head))
+pub fn select_nth_desc(slc: &mut [T], j: usize) -> (r: (Vec<T>, T, Vec<T>))
     requires j < old(slc)@.len(),           // #C10 select_nth_index_in_range
-    ensures r.0.x@ == old(slc)@, r.0.j@ == j, !r.0.asc@,
+    ensures r.0@.len() == j, is_head(r.0@, old(slc)@, j as int, false),
         j < nvalid(old(slc)@) ==> !nan(r.1) && rv(r.1) == kth(old(slc)@, nvalid(old(slc)@) - 1 - j),
 { unimplemented!() }
 impl Cast<f64> for Option<f64> {
